@@ -1,8 +1,8 @@
 package c03
 
 import (
-	"testing"
 	"github.com/dop251/goja"
+	"testing"
 )
 
 func benchSnippet(b *testing.B, src string) {
@@ -15,10 +15,16 @@ func benchSnippet(b *testing.B, src string) {
 	}
 }
 func BenchmarkS_empty(b *testing.B) { benchSnippet(b, "") }
-func BenchmarkS_stack(b *testing.B) { benchSnippet(b, "return new Error('p').stack.split('\\n').length") }
-func BenchmarkS_err(b *testing.B)   { benchSnippet(b, "return new Error('p')") }
-func BenchmarkS_gen(b *testing.B)   { benchSnippet(b, "function* g(){ try { yield 1; yield 2 } finally { } } var it = g(); it.next(); it.return(5)") }
-func BenchmarkS_prom(b *testing.B)  { benchSnippet(b, "Promise.resolve(1).then(function(v){ __pthen += v }); (async function(){ await null; __pthen += 10 })();") }
+func BenchmarkS_stack(b *testing.B) {
+	benchSnippet(b, "return new Error('p').stack.split('\\n').length")
+}
+func BenchmarkS_err(b *testing.B) { benchSnippet(b, "return new Error('p')") }
+func BenchmarkS_gen(b *testing.B) {
+	benchSnippet(b, "function* g(){ try { yield 1; yield 2 } finally { } } var it = g(); it.next(); it.return(5)")
+}
+func BenchmarkS_prom(b *testing.B) {
+	benchSnippet(b, "Promise.resolve(1).then(function(v){ __pthen += v }); (async function(){ await null; __pthen += 10 })();")
+}
 func BenchmarkS_with(b *testing.B)  { benchSnippet(b, "with ({w: 4}) { return w }") }
 func BenchmarkS_depth(b *testing.B) { benchSnippet(b, "return hostStackDepth()") }
 func BenchmarkDump(b *testing.B) {
@@ -28,9 +34,9 @@ func BenchmarkDump(b *testing.B) {
 		w.e.dump(goja.Undefined())
 	}
 }
-func BenchmarkS_p1(b *testing.B)  { benchSnippet(b, "Promise.resolve(1)") }
-func BenchmarkS_p2(b *testing.B)  { benchSnippet(b, "Promise.resolve(1).then(function(v){ })") }
-func BenchmarkS_p3(b *testing.B)  { benchSnippet(b, "(async function(){ })()") }
-func BenchmarkS_p4(b *testing.B)  { benchSnippet(b, "(async function(){ await null })()") }
-func BenchmarkS_g1(b *testing.B)  { benchSnippet(b, "function* g(){ yield 1 }; g()") }
-func BenchmarkS_g2(b *testing.B)  { benchSnippet(b, "function* g(){ yield 1 }; g().next()") }
+func BenchmarkS_p1(b *testing.B) { benchSnippet(b, "Promise.resolve(1)") }
+func BenchmarkS_p2(b *testing.B) { benchSnippet(b, "Promise.resolve(1).then(function(v){ })") }
+func BenchmarkS_p3(b *testing.B) { benchSnippet(b, "(async function(){ })()") }
+func BenchmarkS_p4(b *testing.B) { benchSnippet(b, "(async function(){ await null })()") }
+func BenchmarkS_g1(b *testing.B) { benchSnippet(b, "function* g(){ yield 1 }; g()") }
+func BenchmarkS_g2(b *testing.B) { benchSnippet(b, "function* g(){ yield 1 }; g().next()") }
